@@ -10,19 +10,39 @@ PROP=$(python3 -c "import json,sys; print(json.load(open('$D/meta.json'))['prope
 REPO="${REPO_DIR:-/repo}"; VH="${VERIF_HOME:-/verif}"
 cd "$REPO" || exit 2
 if [ -n "$(git status --porcelain)" ]; then echo "REPO DIRTY, refusing"; exit 2; fi
-cleanup() { cd "$REPO" && git checkout -q -- . && git clean -fdq -- . >/dev/null 2>&1; rm -rf "$REPO/_seeded_demo"; }
-trap cleanup EXIT
+trap 'cleanup' EXIT
+# the demonstration lives where its author ran it: _seeded/<a|b>/demo (some demos depend on the package path;
+# directories starting with "_" are invisible to ./... patterns, so every package directory is named explicitly)
+V=$(basename "$D"); V=${V##*-}; case "$V" in a|c|e|g|i) ORIG=a;; *) ORIG=b;; esac
+DEMODIR="$REPO/_seeded/$ORIG/demo"
+rundemo() {
+  local rc=0 n=0
+  for dir in $(find "$DEMODIR" -name '*_test.go' -printf '%h\n' | sort -u); do
+    n=$((n+1))
+    (cd "$dir" && go test -mod=mod -vet=off -count=1 . ) >>"$1" 2>&1 || rc=1
+  done
+  [ $n -eq 0 ] && return 2
+  return $rc
+}
+cleanup() { cd "$REPO" && git checkout -q -- . && git clean -fdq -- . >/dev/null 2>&1; rm -rf "$REPO/_seeded" "$REPO/_seeded_demo"; }
+DEMO=n/a
+if [ -d "$D/demo" ]; then
+  mkdir -p "$DEMODIR" && cp -r "$D/demo/." "$DEMODIR/"
+  : >"$VH/.work/seeded-demo-clean.log"
+  rundemo "$VH/.work/seeded-demo-clean.log"; case $? in 0) CLEAN=passes;; 2) CLEAN=NO-TESTS;; *) CLEAN=FAILS;; esac
+fi
 git apply "$D/patch.diff" || { echo "RESULT $D apply=FAILED"; exit 2; }
 go build ./... 2>/dev/null && go test -mod=mod -vet=off -count=1 -run '^$' ./... >/dev/null 2>&1 || { echo "RESULT $D compile=FAILED"; exit 2; }
 SUITE=pass; go test -mod=mod -vet=off -count=1 ./... >"$VH/.work/seeded-suite.log" 2>&1 || SUITE=FAIL
-DEMO=n/a
 if [ -d "$D/demo" ]; then
-  mkdir -p "$REPO/_seeded_demo" && cp -r "$D/demo/." "$REPO/_seeded_demo/"
-  if go test -mod=mod -vet=off -count=1 ./_seeded_demo/... >"$VH/.work/seeded-demo.log" 2>&1; then DEMO=passes-with-change; else DEMO=fails-with-change; fi
-  rm -rf "$REPO/_seeded_demo"
+  : >"$VH/.work/seeded-demo.log"
+  rundemo "$VH/.work/seeded-demo.log"; case $? in 0) DEMO=passes-with-change;; 2) DEMO=NO-TESTS;; *) DEMO=fails-with-change;; esac
+  DEMO="$DEMO,unchanged-tree:$CLEAN"
+  rm -rf "$REPO/_seeded"
 fi
 echo "RESULT $D property=$PROP suite=$SUITE demo=$DEMO"
 cd "$VH"
+[ -n "${DEMO_ONLY:-}" ] && exit 0
 for P in $PROP "$@"; do
   OUT=$(./check.sh "$P" "$TIER" 2>&1); RC=$?
   V=$(echo "$OUT" | grep -c '^VIOLATION')
